@@ -406,7 +406,7 @@ func ruleC10R3(r *Run) {
 				av := p.resolve(a.Val)
 				if isNilConst(av) {
 					// nil is returned only when the stack was found empty (length read under the lock)
-					sets := p.pathConds(popFn, ret.Block(), func(rl rel) bool { return rl.X == "builtin:len($t.cleanups)" })
+					sets := p.pathConds(popFn, ret.Block(), func(rl rel) bool { return strings.Contains(rl.X, "builtin:len($t.cleanups)") })
 					for _, f := range a.Facts {
 						for k := range sets {
 							sets[k] = append(sets[k], f.String())
@@ -418,7 +418,7 @@ func ruleC10R3(r *Run) {
 					for _, set := range sets {
 						found := false
 						for _, lit := range set {
-							if lit == "builtin:len($t.cleanups) <= 0" || lit == "builtin:len($t.cleanups) == 0" {
+							if cleanupsEmptyLit(lit) {
 								found = true
 							}
 						}
@@ -646,7 +646,7 @@ func ruleC10R5(r *Run) {
 					cancelled = true
 				}
 			}
-			cleaning := holdsCallTrue(p, ret.Block(), "(*sync/atomic.Bool).Load", nil) || factContains(facts, "cleaning")
+			cleaning := holds(facts, "(*sync/atomic.Bool).Load(&$t.cleaning)", "==", "true") || holds(facts, "(*sync/atomic.Bool).Load(&$t.cleaning)", "!=", "false")
 			switch {
 			case stored && cancelStored:
 				nStored++
@@ -743,6 +743,15 @@ func specC11() *propertySpec {
 			{"C11-R3", "no-shared-stream-state: a stream shared between test cases is re-seeded per case and does not record; its position counter, which is not reset, is only compared with other positions of the same stream; every other T gets its own stream", ruleC11R3},
 			{"C11-R5", "no-global-per-case-state: package-level variables are not written after initialisation: nothing outside the T survives from one test case to the next (shared with C15-R4)", ruleC15R4},
 			{"C11-R6", "failure-identity-survives-minimisation: a test case in which nothing failed is never presented as the failing one: the traceback that identifies a failure keeps the frame that distinguishes a deferred flag consult from a plain skip (shared with C05-R3)", ruleC05R3},
+			{"C11-R7", "presented-case-is-an-executed-one: the buffer Check treats as the falsifying test case is a pruned recording that was never executed in that form, so pruning must be replay-neutral: only groups of rejected attempts are discarded, nothing derived from discarded bits steers later draws, a failing attempt is not closed as discarded (shared with C04-R4.4/R4.5/R4.6/R4.8/R5, C03-R2)", func(r *Run) {
+				ruleC04R44(r)
+				ruleC04R45(r)
+				ruleC04R46(r)
+				ruleC04R48(r)
+				ruleC04R5(r)
+				ruleC03R2(r)
+			}},
+			{"C11-R8", "generators-carry-nothing-over: a generator outlives the test case, so a draw that stores through or hands out generator-owned storage lets one test case change what a later one draws (shared with C15-R3)", ruleC15R3},
 		},
 	}
 }
@@ -820,6 +829,13 @@ func ruleC11R1(r *Run) {
 		}
 		if fresh {
 			r.OK(construct, at.Pos(), "fresh T: created by newT in the same iteration, used for this invocation only")
+			return
+		}
+		if isNew && p.within(nt.Parent(), fn) && strings.HasPrefix(why, "the T is created outside the loop") {
+			// one object for every test case of the loop: resetting its fields is not enough, because the methods of T
+			// may be called from goroutines (C14) — a goroutine left behind by one test case that signals a failure,
+			// registers a cleanup or logs after the reset does it to the next test case
+			r.Fail(construct, at.Pos(), why+": one T object serves all test cases of the loop, so a late Errorf/Fail/Cleanup from a goroutine started in an earlier test case lands in the current one, whatever is reset in between")
 			return
 		}
 		for _, f := range fields {
@@ -1359,3 +1375,14 @@ var cloneSuffixRe = regexp.MustCompile(`__[0-9]+$`)
 
 // cloneBase strips the suffix of a per-call-site clone (clone.go).
 func cloneBase(name string) string { return cloneSuffixRe.ReplaceAllString(name, "") }
+
+// cleanupsEmptyLit: the path literal says that the cleanup stack is empty (len is a non-negative int, so the
+// forms below are equivalent).
+func cleanupsEmptyLit(lit string) bool {
+	switch lit {
+	case "builtin:len($t.cleanups) <= 0", "builtin:len($t.cleanups) == 0", "builtin:len($t.cleanups) < 1",
+		"(builtin:len($t.cleanups) - 1) < 0", "(builtin:len($t.cleanups) - 1) <= -1", "(builtin:len($t.cleanups) - 1) == -1":
+		return true
+	}
+	return false
+}
